@@ -25,10 +25,9 @@ def unit(id, clause, harness, entry, cls='bounded', failing=None, **kw):
     u.update(kw)
     assert u.get('mutants'), id
     assert cls != 'bounded' or u.get('bound'), id
-    if failing and not ENABLE_FAILING:
-        u['disabled_reason'] = failing
-    elif failing:
-        u['expected_to_fail'] = failing
+    if failing:
+        # all three findings of this file were repaired in /repo (d944b13, c998705, fd20626): the units run
+        u['history'] = 'failed on the pinned tree before the repair: ' + failing
     U.append(u)
     return u
 
@@ -65,24 +64,25 @@ unit('pp.escape.buffer',
      'janet_escape_buffer_b into another buffer: @ followed by the literal of data[0..count) (bytes beyond count are not printed), the printed buffer is not modified',
      'pp_escape.c', 'h_escape_buffer', bound='buffers of at most 3 bytes (every byte value); unwind 6 with unwinding assertions', src=['pp.c', 'parse.c'], unwind=6, replace_calls=PUSH,
      functions=['janet_escape_buffer_b', 'janet_escape_string_impl'], assumes=[PUSH_ASS],
-     mutants=[M('capacity-printed-instead-of-count', '    janet_escape_string_impl(buffer, bx->data, bx->count);', '    janet_escape_string_impl(buffer, bx->data, bx->capacity);', 'C11 escape'),
+     mutants=[M('capacity-printed-instead-of-count', '    int32_t count = bx->count;\n    janet_buffer_push_u8(buffer,', '    int32_t count = bx->capacity;\n    janet_buffer_push_u8(buffer,', 'C11 escape'),
               M('buffer-printed-as-string', "    janet_buffer_push_u8(buffer, '@');\n    janet_escape_string_impl", '    janet_escape_string_impl', 'C11 escape')], **TABLES)
 
 # a buffer printed into itself
-ALIAS_STUBS = ['janet_buffer_ensure:pa_ensure_stub', 'janet_escape_string_impl:pa_impl_stub', 'janet_buffer_push_u8:pa_push_u8_stub']
+ALIAS_STUBS = ['janet_buffer_ensure:pa_ensure_stub', 'janet_escape_string_impl:pa_impl_stub', 'janet_buffer_push_u8:pa_push_u8_stub', 'janet_panic:pa_panic_stub']
 ALIAS_CLAUSE = ('janet_escape_buffer_b printing a buffer into itself: room for the whole literal (old contents + @ + two quotes + four characters per byte) is reserved in one step before anything '
                 'is appended, so that the storage cannot move while the source bytes are read; the amount is computed without integer overflow')
 ALIAS_MUT = [M('reservation-dropped', '    if (bx == buffer) {\n', '    if (0) {\n', 'C11 alias'),
-             M('reservation-too-small', 'janet_buffer_ensure(bx, bx->count + 5 * bx->count + 3, 1);', 'janet_buffer_ensure(bx, bx->count + 2 * bx->count + 3, 1);', 'C11 alias'),
-             M('reservation-after-first-output', "        janet_buffer_ensure(bx, bx->count + 5 * bx->count + 3, 1);\n    }\n    janet_buffer_push_u8(buffer, '@');",
-               "        janet_buffer_push_u8(buffer, '@');\n        janet_buffer_ensure(bx, bx->count + 5 * bx->count + 3, 1);\n    } else\n    janet_buffer_push_u8(buffer, '@');", 'C11 alias')]
+             M('reservation-too-small', 'int64_t needed = 6 * (int64_t) bx->count + 3;', 'int64_t needed = 3 * (int64_t) bx->count + 3;', 'C11 alias'),
+             M('reservation-after-first-output', "        janet_buffer_ensure(bx, (int32_t) needed, 1);\n    }", "        janet_buffer_push_u8(buffer, '@'); buffer->count--;\n        janet_buffer_ensure(bx, (int32_t) needed, 1);\n    }", 'C11 alias')]
+ALIAS_MUT_ANY = [M('int32-reservation-again', '        int64_t needed = 6 * (int64_t) bx->count + 3;\n        if (needed > INT32_MAX) janet_panic("buffer overflow");\n        janet_buffer_ensure(bx, (int32_t) needed, 1);', '        janet_buffer_ensure(bx, bx->count + 5 * bx->count + 3, 1);', 'C11 alias|overflow'),
+                 M('overflow-not-refused', '        if (needed > INT32_MAX) janet_panic("buffer overflow");\n', '', 'C11 alias|overflow|conversion')]
 unit('pp.escape.alias.reserve', ALIAS_CLAUSE + ' - for counts up to (INT32_MAX - 3) / 6', 'pp_escape_alias.c', 'h_alias_reserve',
      bound='buffers of at most 357913940 bytes (beyond that see pp.escape.alias.reserve.anycount)', defines=['-DMAXCOUNT=357913940'], src=['pp.c', 'parse.c'], replace_calls=ALIAS_STUBS,
      functions=['janet_escape_buffer_b'], assumes=['janet_buffer_ensure(b, capacity, growth) makes room for capacity bytes (units seq.buffer.ensure); janet_escape_string_impl and janet_buffer_push_u8 are counting stubs'],
      mutants=ALIAS_MUT)
-unit('pp.escape.alias.reserve.anycount', ALIAS_CLAUSE + ' - for EVERY count a buffer can have', 'pp_escape_alias.c', 'h_alias_reserve', cls='full-domain',
+unit('pp.escape.alias.reserve.anycount', ALIAS_CLAUSE + ' - for EVERY count a buffer can have: a literal that cannot fit a buffer raises before anything is appended', 'pp_escape_alias.c', 'h_alias_reserve', cls='full-domain',
      src=['pp.c', 'parse.c'], replace_calls=ALIAS_STUBS, functions=['janet_escape_buffer_b'],
-     assumes=['janet_buffer_ensure(b, capacity, growth) makes room for capacity bytes; janet_escape_string_impl and janet_buffer_push_u8 are counting stubs'], mutants=ALIAS_MUT[:1],
+     assumes=['janet_buffer_ensure(b, capacity, growth) makes room for capacity bytes; janet_escape_string_impl and janet_buffer_push_u8 are counting stubs; janet_panic does not return'], mutants=ALIAS_MUT[:1] + ALIAS_MUT_ANY,
      failing='GENUINE DEFECT (C11/C01, needs a buffer of >= 357913941 bytes): janet_escape_buffer_b computes the reservation as the int32 expression bx->count + 5 * bx->count + 3, which overflows '
              '(undefined behaviour; wraps to a negative number in practice) for count > (INT32_MAX - 3) / 6. janet_buffer_ensure then returns without reserving anything, the buffer is reallocated by the '
              'first push that does not fit while janet_escape_string_impl keeps reading the source bytes through the stale pointer into the freed storage (use after free). Failing obligation: '
@@ -93,11 +93,12 @@ for n0, cap0 in [(0, 1), (1, 1), (2, 2), (2, 8)]:
      'janet_escape_buffer_b printing a buffer into itself, with the real buffer.c and a realloc that always moves the storage: the text appended is @ + the literal of the contents the buffer had '
      'when the call started (it parses back to the value that was printed), the old contents stay in front of it, count <= capacity, and no byte is read from storage that was freed',
      'pp_escape_alias.c', 'h_alias_content', bound='buffer of %d bytes (every byte value) in a block of capacity %d; unwind 6 (copy loop of the realloc model: 34) with unwinding assertions' % (n0, cap0), src=['pp.c', 'parse.c'],
-     defines=['-DN0=%d' % n0, '-DCAP0=%d' % cap0],
+     defines=['-DN0=%d' % n0, '-DCAP0=%d' % cap0], tier='thorough' if n0 == 2 else 'quick',
      link=['buffer.c', 'util.c'], link_keep={'util.c': ['janet_cstrcmp']}, replace_calls=['realloc:pa_realloc_stub'], unwind=6, unwindset={'pa_realloc_stub.0': 34},
      functions=['janet_escape_buffer_b', 'janet_escape_string_impl', 'janet_buffer_ensure', 'janet_buffer_extra', 'janet_buffer_push_u8', 'janet_buffer_push_bytes'],
      assumes=['realloc is a model that always moves: fresh block, old bytes copied, old block really deallocated (any later read through the old pointer is a pointer-check failure)'],
-     mutants=[M('reservation-dropped', '    if (bx == buffer) {\n', '    if (0) {\n', 'deallocated|dereference')],
+     mutants=([M('reservation-dropped', '    if (bx == buffer) {\n', '    if (0) {\n', 'deallocated|dereference')] if (n0, cap0) == (2, 2) else []) +
+             ([M('count-read-after-the-at', '    int32_t count = bx->count;\n    janet_buffer_push_u8(buffer, \'@\');', '    janet_buffer_push_u8(buffer, \'@\');\n    int32_t count = bx->count;', 'C11 alias')]),
      failing='GENUINE DEFECT (C11, low severity): janet_escape_buffer_b pushes the @ into the destination BEFORE it reads bx->count, so when a buffer is printed into itself the @ just written is '
              'taken for part of the value: (def b @"abc") (buffer/format b "%j" b) appends @"abc@" - which parses back to @"abc@", not to the @"abc" that was printed (%p appends the correct @"abc"). '
              'Failing obligation: "the literal closes directly after the last byte of the printed value". Reproducer and repair (read bx->count before pushing the @; the four units then pass): header of /verif/harness/pp_escape_alias.c')
@@ -196,17 +197,27 @@ jdn('struct', 'a struct prints as {k0 v0 k1 v1 ...}: live buckets in bucket orde
      M('length-instead-of-capacity', STR, STR.replace('janet_struct_capacity(st)', 'janet_struct_length(st)'), 'C11 jdn')],
     bound='structs of capacity 2 (every combination of live / empty buckets, keys and values of any type); unwind 12 with unwinding assertions', defines=['-DDICT_TABLE=0'])
 
+for tag, flag, muts in [('array', 0, [M('array-elements-get-a-fresh-budget', ARR, ARR.replace('a->data[i], depth - 1)', 'a->data[i], depth > 1 ? depth - 1 : 2)'), 'C11 jdn|unwinding|recursion')]),
+                        ('table', 1, [M('table-values-charged-twice', TAB, TAB.replace('kv->value, depth - 1)', 'kv->value, depth - 2)'), 'C11 jdn')])]:
+    unit('pp.jdn.cycle.' + tag, 'print_jdn_one with its REAL recursion on cyclic data (%s): refused when the depth budget runs out, after exactly `depth` levels - raising instead of '
+         'recursing forever' % ('an array that contains itself' if not flag else 'a table that holds itself as a value'), 'pp_jdn.c', 'h_jdn_cycle', nanbox=False, link=['wrap.c'], functions=['print_jdn_one'],
+         bound='depth budget 3; one-element array / one-entry table; recursion and loops unwound 12 times with unwinding assertions', unwind=12, defines=['-DCYCLE_TABLE=%d' % flag],
+         replace_calls=[r for r in JDN_STUBS if not r.startswith('print_jdn_one:')], assumes=JDN_ASS[1:],
+         mutants=[M('budget-exhaustion-reported-as-success', DEPTH0, DEPTH0.replace('if (depth == 0) return 1;', 'if (depth == 0) return 0;'), 'C11 jdn')] + muts)
+
 # symbols and keywords
 SYM_STUBS = ['print_jdn_one:ps_child_stub', 'janet_description_b:ps_description_stub']
-BAD = ("    if (len && issym && sym[0] >= '0' && sym[0] <= '9') return 1;\n    if (!janet_valid_utf8(sym, len)) return 1;\n    for (int32_t i = 0; i < len; i++) {\n        if (!janet_is_symbol_char(sym[i])) return 1;\n    }")
+BAD = ("        if (sym[0] >= '0' && sym[0] <= '9') return 1;\n")
+BAD2 = ("    if (!janet_valid_utf8(sym, len)) return 1;\n    for (int32_t i = 0; i < len; i++) {\n        if (!janet_is_symbol_char(sym[i])) return 1;\n    }")
 jdn('symbol.alphabet', 'a symbol / keyword is accepted only if every byte belongs to the symbol alphabet, the text is valid UTF-8 and (symbols) it does not start with a digit - the tokens the reader '
-    'rejects or splits are refused, nothing printed; plain ASCII text of the alphabet is never refused; accepted text is printed once through janet_description_b', 'h_jdn_symbol_alphabet',
-    [M('digit-check-dropped', BAD, BAD.replace("    if (len && issym && sym[0] >= '0' && sym[0] <= '9') return 1;\n", ''), 'C11 jdn symbol'),
-     M('utf8-check-dropped', BAD, BAD.replace('    if (!janet_valid_utf8(sym, len)) return 1;\n', ''), 'C11 jdn symbol'),
-     M('last-character-unchecked', BAD, BAD.replace('i < len; i++', 'i + 1 < len; i++'), 'C11 jdn symbol'),
-     M('keywords-with-digits-refused', BAD, BAD.replace('len && issym && sym[0]', 'len && sym[0]'), 'C11 jdn symbol'),
+    'rejects or splits are refused, nothing printed; plain ASCII text of the alphabet is never refused (keywords; symbols that start with a letter and are not the name of a constant); accepted text is printed once through janet_description_b', 'h_jdn_symbol_alphabet',
+    [M('digit-check-dropped', BAD, '', 'C11 jdn symbol'),
+     M('utf8-check-dropped', BAD2, BAD2.replace('    if (!janet_valid_utf8(sym, len)) return 1;\n', ''), 'C11 jdn symbol'),
+     M('last-character-unchecked', BAD2, BAD2.replace('i < len; i++', 'i + 1 < len; i++'), 'C11 jdn symbol'),
+     M('keywords-with-digits-refused', "    if (issym) {\n        /* The text must read back as a symbol", "    if (len) {\n        /* The text must read back as a symbol", 'C11 jdn symbol'),
      M('bad-symbols-printed', '            if (contains_bad_chars(janet_unwrap_keyword(x), janet_type(x) == JANET_SYMBOL)) return 1;\n', '', 'C11 jdn symbol')],
-    harness='pp_jdn_sym.c', src=['pp.c', 'parse.c'], replace_calls=SYM_STUBS, functions=['contains_bad_chars'],
+    harness='pp_jdn_sym.c', src=['pp.c', 'parse.c'], replace_calls=SYM_STUBS + ['janet_scan_numeric:ps_scan_numeric_alpha_stub'], functions=['contains_bad_chars'],
+    link=['wrap.c', 'util.c'], link_keep={'util.c': ['janet_cstrcmp']},
     bound='symbol / keyword texts of at most 3 bytes (every byte value); unwind 12 with unwinding assertions',
     assumes=['janet_description_b is replaced by a recording stub', 'JANET_NO_NANBOX configuration of the same sources'])
 RT_STUBS = ['print_jdn_one:ps_child_stub', 'janet_buffer_push_u8:ps_push_u8_stub', 'janet_buffer_push_bytes:ps_push_bytes_stub', 'janet_symbol:ps_symbol_stub', 'realloc:ps_realloc_stub']
